@@ -568,18 +568,22 @@ pub fn ambient(file: &File, k: usize) -> File {
     match AMBIENTS[k] {
         "noise-attributes" => {
             for it in &mut f.items {
+                // (each doc ends in an empty doc line: "summary, blank line" is a common layout)
                 it.docs.push(Doc::Line("ambient note on the item".into()));
+                it.docs.push(Doc::Line(String::new()));
                 it.cfgs.push("feature = \"ambient\"".into());
                 if matches!(it.kind, IKind::Struct(_)) {
                     it.extra_serde.push("deny_unknown_fields".into());
                 }
                 for_fields(it, &mut |x| {
                     x.docs.push(Doc::Line("ambient note on the field".into()));
+                    x.docs.push(Doc::Line(String::new()));
                     x.cfgs.push("feature = \"ambient\"".into());
                 });
                 if let IKind::Enum { variants, .. } = &mut it.kind {
                     for v in variants {
                         v.docs.push(Doc::Line("ambient note on the variant".into()));
+                        v.docs.push(Doc::Line(String::new()));
                         v.cfgs.push("feature = \"ambient\"".into());
                         v.extra_serde.push("alias = \"AmbientAlias\"".into());
                     }
